@@ -458,12 +458,18 @@ func (r *c18run) tamper() *core.Violation {
 		if off < 0 || off >= n {
 			continue
 		}
+		if r.c.Expired() {
+			break
+		}
 		if v := r.run1(C18Case{Kind: "flip", Off: off, Bit: rng.Intn(8)}); v != nil {
 			return v
 		}
 	}
 	// module truncation, swaps, transplants
 	for i, m := range r.mods {
+		if r.c.Expired() {
+			break
+		}
 		if rng.Intn(4) == 0 || len(r.mods) < 12 {
 			if v := r.run1(C18Case{Kind: "truncate-module", A: i}); v != nil {
 				return v
@@ -473,6 +479,9 @@ func (r *c18run) tamper() *core.Violation {
 	}
 	pairs := 0
 	for i := range r.mods {
+		if r.c.Expired() {
+			break
+		}
 		for j := i + 1; j < len(r.mods); j++ {
 			if r.mods[i][1] != r.mods[j][1] || bytes.Equal(r.good[r.mods[i][0]:r.mods[i][0]+r.mods[i][1]], r.good[r.mods[j][0]:r.mods[j][0]+r.mods[j][1]]) {
 				continue
